@@ -107,6 +107,24 @@ HARMLESS = [
         ("    i1, i2 = tee(iterable)\n    c1, c2 = tee(condition)\n    return compress(i1, c1), compress(i2, map(op.not_, c2))",
          "    conds_a, conds_b = tee(condition)\n    items_a, items_b = tee(iterable)\n    return compress(items_a, conds_a), compress(items_b, map(op.not_, conds_b))"),
     ], ['C18']),
+    ('itertools: negation written as a generator expression', 'aiuti/itertools.py', [
+        ("compress(i2, map(op.not_, c2))", "compress(i2, (not c for c in c2))"),
+    ], ['C18']),
+    ('raise_first_exc: stream collected first, first element raised', 'aiuti/asyncio.py', [
+        ("    async for exc in gather_excs(aws, only):\n        raise exc",
+         "    excs = [exc async for exc in gather_excs(aws, only)]\n    if excs:\n        raise excs[0]"),
+    ], ['C20']),
+    ('cache: own-marker test written with `in` and a subscript', 'aiuti/asyncio.py', [
+        ("if events.get(key, (None, None))[1] is event:", "if key in events and events[key][1] is event:"),
+    ], ['C01', 'C06']),
+    ('buffer: outcome of the call kept in a local first', 'aiuti/asyncio.py', [
+        ("                if await self._run_func(inputs):\n                    break",
+         "                delivered = await self._run_func(inputs)\n                if delivered:\n                    break"),
+    ], ['C03', 'C08']),
+    ('filelock: a failed attempt logs inside contextlib.suppress', 'aiuti/filelock.py', [
+        ("            _cleanup_thread_lock()\n            raise\n\n        return True",
+         "            with contextlib.suppress(ValueError):\n                _cleanup_thread_lock()\n            raise\n\n        return True"),
+    ], ['C12', 'C13']),
     ('gather_excs: loop variable renamed', 'aiuti/asyncio.py', [
         ("    for res in await aio.gather(*aws, return_exceptions=True):\n        if isinstance(res, only):\n            yield res",
          "    outcomes = await aio.gather(*aws, return_exceptions=True)\n    for outcome in outcomes:\n        if isinstance(outcome, only):\n            yield outcome"),
